@@ -5,8 +5,10 @@ mod c14;
 mod c01;
 mod c02;
 mod c04;
+mod c05;
 mod c07;
 mod c08;
+mod c09;
 mod c10;
 mod c11;
 mod c13;
@@ -72,8 +74,10 @@ fn main() {
             "C01" => c01::replay(case),
             "C02" => c02::replay(case),
             "C04" => c04::replay(case),
+            "C05" => c05::replay(case),
             "C07" => c07::replay(case),
             "C08" => c08::replay(case),
+            "C09" => c09::replay(case),
             "C10" => c10::replay(case),
             "C11" => c11::replay(case),
             "C13" => c13::replay(case),
@@ -90,8 +94,10 @@ fn main() {
         "C01" => c01::run(&a),
         "C02" => c02::run(&a),
         "C04" => c04::run(&a),
+        "C05" => c05::run(&a),
         "C07" => c07::run(&a),
         "C08" => c08::run(&a),
+        "C09" => c09::run(&a),
         "C10" => c10::run(&a),
         "C11" => c11::run(&a),
         "C13" => c13::run(&a),
